@@ -85,6 +85,15 @@ def sym_labware(ex, tag, trough, composition="none", cls="Labware"):
     p.assume(z3.ForAll([i, j], z3.Implies(z3.And(i >= 0, i < RR, j >= 0, j < C), hist(H - 1, i, j) == vol(i, j))))
     if composition == "none":
         f["_composition"] = None
+    elif composition == "two":
+        # two named components; fractions in [0,1] that add up to 1 in every non-empty real well (I_comp)
+        names = [Sym(z3.String(f"{tag}_comp{k}"), "str") for k in range(2)]
+        p.assume(names[0].t != names[1].t)
+        fr = [z3.Function(f"{tag}_frac{k}", z3.IntSort(), z3.IntSort(), z3.RealSort()) for k in range(2)]
+        p.assume(z3.ForAll([i, j], z3.Implies(z3.And(i >= 0, i < RR, j >= 0, j < C),
+                                              z3.And(fr[0](i, j) >= 0, fr[1](i, j) >= 0, fr[0](i, j) <= 1, fr[1](i, j) <= 1,
+                                                     z3.Implies(vol(i, j) > 0, fr[0](i, j) + fr[1](i, j) == 1)))))
+        f["_composition"] = MapV(items=[(names[k], Arr2V(_m(RR), C, (lambda a, b, k=k: Sym(fr[k](_t(a), _t(b)), "real")), "float")) for k in range(2)])
     o.fields["__ghost__"] = {"R": R, "C": C, "RR": RR, "vol": vol, "min": minv, "max": maxv, "H": H, "hist": hist, "label": lab,
                              "trough": trough, "tag": tag}
     o.fields["__native__"] = lambda model, describe, o=o: describe_labware(o, model, describe)
